@@ -90,6 +90,29 @@ func c02(c *ctx) {
 			}
 		}
 	}
+	// long payloads (beyond any block / page size of an unrolled loop) at every offset residue
+	longLens := []int{255, 256, 257, 1000, 1023, 1024, 1025, 1043, 2047, 2048, 2100, 4095, 4096, 4111}
+	if c.thorough {
+		longLens = append(longLens, 8191, 8192, 8200, 16384, 16401, 65535, 65536, 65555)
+	}
+	for _, ln := range longLens {
+		for off := 0; off < 8; off++ {
+			key := fmt.Sprintf("long/%d/%d", ln, off)
+			if !vh.Only(key) {
+				continue
+			}
+			k := keys[(ln+off)%len(keys)]
+			p := alignedSlice(ln, off%3)
+			rng.Read(p)
+			orig := append([]byte(nil), p...)
+			ws.Cipher(p, k, off)
+			res := append([]byte(nil), p...)
+			ws.Cipher(p, k, off)
+			emit(map[string]interface{}{"k": "cipher", "key": key, "p": vh.Ints(orig), "key4": vh.Ints(k[:]), "off": off,
+				"out": vh.Ints(res), "twice": vh.Ints(p), "cuts": []int{}})
+			shapes.Add("long/%d/%d", ln, off%4)
+		}
+	}
 	// every 2-split, and seeded multi-splits
 	for ln := 1; ln <= maxLen; ln++ {
 		for cut := 0; cut <= ln; cut++ {
